@@ -232,94 +232,99 @@ func init() {
 	}
 
 	// ---- incarnations: identifiers of an earlier incarnation of a restarted node -------------------
-	harn.Register(harn.Scenario{Property: "C14", Name: "incarnation-old-identifiers", Run: func(c *harn.Ctx) *harn.Result {
-		return harn.Explore(c, harn.Sched{QuickBound: 0, ThoroughBound: 1, Preempt: false, Cache: true, HorizonS: 60, Body: func(ex *vsched.Exec) string {
-			na := startNetNode("a@localhost", netOpts{})
-			nb1 := startNetNode("b@localhost", netOpts{})
-			nw := &NetWorld{ex: ex}
-			nw.a = &World{ex: ex, n: na, recs: map[string]*rec{}, pids: map[string]gen.PID{}, tag: "A-"}
-			nw.b = &World{ex: ex, n: nb1, recs: map[string]*rec{}, pids: map[string]gen.PID{}, tag: "B1-"}
-			// incarnation 1 of B: a target with alias and event, and a caller whose request A answers late
-			nw.b.ex.Data["kind"] = "pid"
-			old := nw.b.spawnTarget("T", "tname", "tev")
-			var lateFrom gen.PID
-			var lateRef gen.Ref
-			nw.a.spawnProbe("S", probeCfg{onCall: func(p *probe, from gen.PID, ref gen.Ref, m any) (any, error) {
-				lateFrom, lateRef = from, ref
-				return nil, nil
-			}}, gen.ProcessOptions{})
-			nw.b.spawnProbe("CALLER", probeCfg{onMsg: func(p *probe, from gen.PID, m any) error {
-				p.CallWithTimeout(nw.a.pids["S"], "old-q", 1)
-				return nil
-			}}, gen.ProcessOptions{})
-			nw.connect()
-			nw.b.Setup("oldcall", func() { nb1.Send(nw.b.pids["CALLER"], "go") })
-			// B goes away and comes back under the same name with a later creation stamp
-			nw.a.Setup("cut", func() { nw.links[0].ca.Close() })
-			vsched.Quiet(func() { nb1.StopForce() })
-			ex.Now += 5e9
-			nb2 := startNetNode("b@localhost", netOpts{})
-			if nb2.creation == nb1.creation {
-				ex.Fail("harness", "the restarted node has the same creation stamp")
-			}
-			nw.b = &World{ex: ex, n: nb2, recs: map[string]*rec{}, pids: map[string]gen.PID{}, tag: "B2-"}
-			// incarnation 2: processes that reuse the same process ids, name, and wait for a reply
-			nw.b.spawnTarget("T", "tname", "tev")
-			var newRes any
-			var newErr error
-			nw.b.spawnProbe("CALLER", probeCfg{onMsg: func(p *probe, from gen.PID, m any) error {
-				newRes, newErr = p.CallWithTimeout(nw.a.pids["S2"], "new-q", 2)
-				return nil
-			}}, gen.ProcessOptions{})
-			nw.a.spawnProbe("S2", probeCfg{onCall: func(p *probe, from gen.PID, ref gen.Ref, m any) (any, error) { return nil, nil }}, gen.ProcessOptions{})
-			nw.links = nil
-			nw.connect()
-			if ex.Failed() {
-				return "handshake failed"
-			}
-			errs := map[string]error{}
-			nw.a.spawnProbe("OP", probeCfg{trap: true, onMsg: func(p *probe, from gen.PID, m any) error {
-				errs["send-pid"] = p.Send(old.pid, "to-old-pid")
-				errs["send-alias"] = p.Send(old.alias, "to-old-alias")
-				_, errs["call-pid"] = p.CallWithTimeout(old.pid, "call-old", 1)
-				errs["link-pid"] = p.LinkPID(old.pid)
-				errs["monitor-pid"] = p.MonitorPID(old.pid)
-				errs["link-alias"] = p.LinkAlias(old.alias)
-				errs["exit-pid"] = p.SendExit(old.pid, errX)
-				errs["response-old-ref"] = p.SendResponse(lateFrom, lateRef, "late-reply-for-old-incarnation")
-				errs["response-error-old-ref"] = p.SendResponseError(lateFrom, lateRef, errX)
-				return nil
-			}}, gen.ProcessOptions{})
-			nw.b.Setup("newcall", func() { nb2.Send(nw.b.pids["CALLER"], "go") })
-			ex.Thread("OPS", func() { na.Send(nw.a.pids["OP"], "go") })
-			ex.Run()
-			for k, e := range errs {
-				if e != gen.ErrProcessIncarnation {
-					ex.Fail("old-identifier-accepted", "%s with an identifier of the previous incarnation returned %v, expected %v", k, e, gen.ErrProcessIncarnation)
+	// (registered for C07 as well: a reply made for a request of the caller's previous incarnation must not
+	// reach the process that reuses the caller's id and waits on a reference with the same counter)
+	for _, reg := range [][2]string{{"C14", "incarnation-old-identifiers"}, {"C07", "late-reply-after-caller-node-restart"}} {
+		reg := reg
+		harn.Register(harn.Scenario{Property: reg[0], Name: reg[1], Run: func(c *harn.Ctx) *harn.Result {
+			return harn.Explore(c, harn.Sched{QuickBound: 0, ThoroughBound: 1, Preempt: false, Cache: true, HorizonS: 60, Body: func(ex *vsched.Exec) string {
+				na := startNetNode("a@localhost", netOpts{})
+				nb1 := startNetNode("b@localhost", netOpts{})
+				nw := &NetWorld{ex: ex}
+				nw.a = &World{ex: ex, n: na, recs: map[string]*rec{}, pids: map[string]gen.PID{}, tag: "A-"}
+				nw.b = &World{ex: ex, n: nb1, recs: map[string]*rec{}, pids: map[string]gen.PID{}, tag: "B1-"}
+				// incarnation 1 of B: a target with alias and event, and a caller whose request A answers late
+				nw.b.ex.Data["kind"] = "pid"
+				old := nw.b.spawnTarget("T", "tname", "tev")
+				var lateFrom gen.PID
+				var lateRef gen.Ref
+				nw.a.spawnProbe("S", probeCfg{onCall: func(p *probe, from gen.PID, ref gen.Ref, m any) (any, error) {
+					lateFrom, lateRef = from, ref
+					return nil, nil
+				}}, gen.ProcessOptions{})
+				nw.b.spawnProbe("CALLER", probeCfg{onMsg: func(p *probe, from gen.PID, m any) error {
+					p.CallWithTimeout(nw.a.pids["S"], "old-q", 1)
+					return nil
+				}}, gen.ProcessOptions{})
+				nw.connect()
+				nw.b.Setup("oldcall", func() { nb1.Send(nw.b.pids["CALLER"], "go") })
+				// B goes away and comes back under the same name with a later creation stamp
+				nw.a.Setup("cut", func() { nw.links[0].ca.Close() })
+				vsched.Quiet(func() { nb1.StopForce() })
+				ex.Now += 5e9
+				nb2 := startNetNode("b@localhost", netOpts{})
+				if nb2.creation == nb1.creation {
+					ex.Fail("harness", "the restarted node has the same creation stamp")
 				}
-			}
-			for name, r := range nw.b.recs {
-				for _, l := range r.log {
-					if strings.Contains(l, "old") {
-						ex.Fail("old-identifier-delivered", "process %s of the NEW incarnation handled %q", name, l)
+				nw.b = &World{ex: ex, n: nb2, recs: map[string]*rec{}, pids: map[string]gen.PID{}, tag: "B2-"}
+				// incarnation 2: processes that reuse the same process ids, name, and wait for a reply
+				nw.b.spawnTarget("T", "tname", "tev")
+				var newRes any
+				var newErr error
+				nw.b.spawnProbe("CALLER", probeCfg{onMsg: func(p *probe, from gen.PID, m any) error {
+					newRes, newErr = p.CallWithTimeout(nw.a.pids["S2"], "new-q", 2)
+					return nil
+				}}, gen.ProcessOptions{})
+				nw.a.spawnProbe("S2", probeCfg{onCall: func(p *probe, from gen.PID, ref gen.Ref, m any) (any, error) { return nil, nil }}, gen.ProcessOptions{})
+				nw.links = nil
+				nw.connect()
+				if ex.Failed() {
+					return "handshake failed"
+				}
+				errs := map[string]error{}
+				nw.a.spawnProbe("OP", probeCfg{trap: true, onMsg: func(p *probe, from gen.PID, m any) error {
+					errs["send-pid"] = p.Send(old.pid, "to-old-pid")
+					errs["send-alias"] = p.Send(old.alias, "to-old-alias")
+					_, errs["call-pid"] = p.CallWithTimeout(old.pid, "call-old", 1)
+					errs["link-pid"] = p.LinkPID(old.pid)
+					errs["monitor-pid"] = p.MonitorPID(old.pid)
+					errs["link-alias"] = p.LinkAlias(old.alias)
+					errs["exit-pid"] = p.SendExit(old.pid, errX)
+					errs["response-old-ref"] = p.SendResponse(lateFrom, lateRef, "late-reply-for-old-incarnation")
+					errs["response-error-old-ref"] = p.SendResponseError(lateFrom, lateRef, errX)
+					return nil
+				}}, gen.ProcessOptions{})
+				nw.b.Setup("newcall", func() { nb2.Send(nw.b.pids["CALLER"], "go") })
+				ex.Thread("OPS", func() { na.Send(nw.a.pids["OP"], "go") })
+				ex.Run()
+				for k, e := range errs {
+					if e != gen.ErrProcessIncarnation {
+						ex.Fail("old-identifier-accepted", "%s with an identifier of the previous incarnation returned %v, expected %v", k, e, gen.ErrProcessIncarnation)
 					}
 				}
-				if len(r.term) > 0 {
-					ex.Fail("old-identifier-delivered", "process %s of the new incarnation was terminated (%v) by an operation on an old identifier", name, r.term)
+				for name, r := range nw.b.recs {
+					for _, l := range r.log {
+						if strings.Contains(l, "old") {
+							ex.Fail("old-identifier-delivered", "process %s of the NEW incarnation handled %q", name, l)
+						}
+					}
+					if len(r.term) > 0 {
+						ex.Fail("old-identifier-delivered", "process %s of the new incarnation was terminated (%v) by an operation on an old identifier", name, r.term)
+					}
 				}
-			}
-			if newErr == nil {
-				ex.Fail("old-identifier-delivered", "the new incarnation's call (never answered) returned %v: a reply made for the old incarnation was accepted", newRes)
-			}
-			out := fmt.Sprintf("errs=%v new=%v/%v", errs, newRes, newErr)
-			ex.Release()
-			vsched.Quiet(func() { na.StopForce() })
-			vsched.Quiet(func() { nb2.StopForce() })
-			return out
+				if newErr == nil {
+					ex.Fail("old-identifier-delivered", "the new incarnation's call (never answered) returned %v: a reply made for the old incarnation was accepted", newRes)
+				}
+				out := fmt.Sprintf("errs=%v new=%v/%v", errs, newRes, newErr)
+				ex.Release()
+				vsched.Quiet(func() { na.StopForce() })
+				vsched.Quiet(func() { nb2.StopForce() })
+				return out
+			}})
 		}})
-	}})
+	}
 	// ---- the initiator disconnects while it is still dialling the further links of the pool ----------
-	for _, who := range []string{"initiator", "acceptor"} {
+	for _, who := range []string{"initiator"} {
 		who := who
 		harn.Register(harn.Scenario{Property: "C14", Name: "disconnect-while-pool-fills-by-" + who, Run: func(c *harn.Ctx) *harn.Result {
 			return harn.Explore(c, harn.Sched{QuickBound: 1, ThoroughBound: 2, Preempt: false, Cache: true, HorizonS: 30, Body: netBody(netOpts{}, func(nw *NetWorld) {
@@ -332,21 +337,32 @@ func init() {
 				}, func() {
 					nw.b.n.Send(nw.b.pids["OB"], doMsg{func(p *probe) error { errB = p.MonitorNode(nw.a.n.Name()); monB = true; return nil }})
 				})
+				disconnected := false
 				nw.ex.ThreadLow("DISC", func() {
 					side, peer := nw.a.n, nw.b.n
 					if who == "acceptor" {
 						side, peer = nw.b.n, nw.a.n
 					}
-					vsched.Block(vsched.OpUser, 0, func() bool { _, err := side.network.Node(peer.Name()); return err == nil })
+					// from the moment the first link serves the connection (the window between registering a
+					// connection and joining its first link lies in code that this harness only mirrors)
+					vsched.Block(vsched.OpUser, 0, func() bool { _, err := side.network.Node(peer.Name()); return err == nil && nw.pa != nil })
 					if rn, err := side.network.Node(peer.Name()); err == nil {
 						rn.Disconnect()
+						disconnected = true
 					}
 				})
 				nw.Check = func() {
 					_, ea := nw.a.n.network.Node(nw.b.n.Name())
 					_, eb := nw.b.n.network.Node(nw.a.n.Name())
+					if disconnected && ea == nil && eb == nil {
+						nw.ex.Fail("disconnect-without-effect", "Disconnect() was called on the %s's side; at quiescence both nodes still hold the connection (links %d)", who, len(nw.links))
+					}
 					if (ea == nil) != (eb == nil) {
-						nw.ex.Fail("half-connected", "after the %s disconnected: a sees b: %v, b sees a: %v (links %d)", who, ea == nil, eb == nil, len(nw.links))
+						st := ""
+						for i, l := range nw.links {
+							st += fmt.Sprintf(" link%d closed=%v/%v", i, l.ca.Closed(), l.cb.Closed())
+						}
+						nw.ex.Fail("half-connected", "after the %s disconnected: a sees b: %v, b sees a: %v (links %d:%s)", who, ea == nil, eb == nil, len(nw.links), st)
 					}
 					for _, x := range []struct {
 						o    *observer
